@@ -8,7 +8,7 @@ from .. import terms as T
 from .. import spec as S
 from ..rules import guard as G
 from ..rules import rel, sig, slots
-from . import c05
+from . import c05, c08
 from witness import winst
 
 META = ("TERM (every store to the size representation is followed on every path by a store of Char(0) at exactly the "
@@ -290,6 +290,8 @@ def run(chk, tier):
     if chk.rule_instances.get("SLOTS-W", 0) < 4:
         chk.analysis_broken("SLOTS-W: only %d growing size stores found in basic_inplace_string (floor 4)" % chk.rule_instances.get("SLOTS-W", 0))
     same_name_delegation(chk, db)
+    # NULFREE: counted operations never reach a routine that stops at a null character (embedded nulls are characters)
+    c08.nulfree_rule(chk, db, STRING, 100)
     nrel = rel.check(chk, db, ["_string/basic_inplace_string.hpp"])
     if nrel < 16:
         chk.analysis_broken("REL: only %d string relational operators modelled (floor 16)" % nrel)
